@@ -66,6 +66,126 @@ register(check_limits, id="C01.check_limits", prop="C01", target=method("microjs
          native=_vm_method("_check_limits"), grid={"Flt": [0.0, 1.0, 1e6]})
 
 
+def _ctx_method(name):
+    def make():
+        from microjs.context import Context
+        return getattr(Context, name)
+    return make
+
+
+def c_nested_vm(ctx: Obj("Context"), cur: Obj("VM"), has_cur: Bool, tl: Num, use_tl: Bool, start: Flt, depth: IntRange(0, 1000)):
+    """Context._nested_vm -- the VM every piece of nested code runs in (eval, Function, accessors read by built-ins, callbacks
+    started by the host, Context.eval called again by a host function): with an evaluation running it carries THAT
+    evaluation's start time and limit (one deadline per evaluation), is refused with TimeLimitError when the deadline has
+    already passed (and only then), counts one more level of nesting (refused beyond the guard), and leaves the running VM
+    as it was; without one it is a fresh VM whose clock has not started"""
+    assume(start >= 0 and start < 1e12)
+    assume(tl >= 0 and tl < 1e9)
+    ctx.time_limit = tl if use_tl else None
+    ctx.memory_limit = None
+    ctx._current_vm = cur if has_cur else None
+    cur.start_time = start
+    cur.native_depth = depth
+    cur.time_limit = tl if use_tl else None
+    limit = cur.MAX_NATIVE_DEPTH
+    t0 = time.monotonic()
+    o = outcome(REAL, ctx)
+    t1 = time.monotonic()
+    if not has_cur:
+        check("fresh.returns-a-vm", o[0] == "ret")
+        if o[0] == "ret":
+            check("fresh.clock-not-started", o[1].start_time is None)
+            check("fresh.limit-of-the-context", same_value(o[1].time_limit, ctx.time_limit))
+            check("fresh.no-nesting", o[1].native_depth == 0)
+            check("fresh.shares-the-globals", same_ref(o[1].globals, ctx._globals))
+    else:
+        due = use_tl and t0 - start > tl
+        check("running.stopped-when-the-deadline-has-passed", not due or exc_in(o, ("TimeLimitError",)))
+        check("running.never-stopped-before-the-deadline", not exc_in(o, ("TimeLimitError",)) or (use_tl and t1 - start > tl))
+        check("running.only-limit-errors", o[0] == "ret" or exc_in(o, ("TimeLimitError", "MemoryLimitError")))
+        check("running.nesting-guard", not (depth >= limit and not exc_in(o, ("TimeLimitError",))) or exc_in(o, ("MemoryLimitError",)))
+        check("running.no-spurious-nesting-stop", not exc_in(o, ("MemoryLimitError",)) or depth >= limit)
+        if o[0] == "ret":
+            check("running.same-start-time", o[1].start_time == start)
+            check("running.same-limit", same_value(o[1].time_limit, ctx.time_limit))
+            check("running.one-level-deeper", o[1].native_depth == depth + 1)
+            check("running.shares-the-globals", same_ref(o[1].globals, ctx._globals))
+        check("running.vm-left-as-it-was", cur.native_depth == depth and cur.start_time == start)
+    check("context-still-points-at-the-running-vm", same_ref(ctx._current_vm, cur) if has_cur else ctx._current_vm is None)
+
+
+register(c_nested_vm, id="C01.Context._nested_vm", prop="C01", target=method("microjs.context", "Context._nested_vm"), native=_ctx_method("_nested_vm"),
+         grid={"Flt": [0.0, 1.0, 1e6]})
+
+
+@effectful
+def spec_call_callback(vm, callback, args, this_val=None):
+    """callee contract of VM._call_callback used here: it runs script code in `vm`; what is recorded is the state that code
+    would see (which VM the context points at, the VM's clock and nesting depth); its result is arbitrary"""
+    ctx = ghost_get("ctx", None)
+    ghost_set("cb.calls", ghost_get("cb.calls", 0) + 1)
+    ghost_set("cb.vm-is-current", same_ref(ctx._current_vm, vm))
+    ghost_set("cb.start", vm.start_time)
+    ghost_set("cb.depth", vm.native_depth)
+    return fresh(JSVal)
+
+
+def _recording_call_function():
+    from microjs.context import Context
+    from microjs.vm import VM
+    import pyvc.api as A
+    real = Context._call_function
+
+    def run(ctx, func, args):
+        orig = VM._call_callback
+
+        def rec(self, callback, a, this_val=None):
+            A.GHOST.update({"cb.calls": A.GHOST.get("cb.calls", 0) + 1, "cb.vm-is-current": ctx._current_vm is self, "cb.start": self.start_time, "cb.depth": self.native_depth})
+            return 0
+        VM._call_callback = rec
+        try:
+            return real(ctx, func, args)
+        finally:
+            VM._call_callback = orig
+    return run
+
+
+def c_call_function(ctx: Obj("Context"), cur: Obj("VM"), func: Obj("JSFunction"), args: ValList, has_cur: Bool, tl: Num, use_tl: Bool, start: Flt, depth: IntRange(0, 40)):
+    """Context._call_function -- how the host (a comparator, a replacer, JSON's toJSON, the embedder) runs a script function:
+    in a nested VM that is the context's current VM while the function runs, on the clock of the evaluation that is
+    running (or on a clock started now when none is), one nesting level deeper; afterwards the context points at the
+    VM it pointed at before"""
+    assume(start >= 0 and start < 1e12)
+    assume(tl >= 0 and tl < 1e9)
+    ctx.time_limit = tl if use_tl else None
+    ctx.memory_limit = None
+    ctx._current_vm = cur if has_cur else None
+    cur.start_time = start
+    cur.native_depth = depth
+    cur.time_limit = tl if use_tl else None
+    ghost_set("ctx", ctx)
+    t0 = time.monotonic()
+    o = outcome(REAL, ctx, func, args)
+    t1 = time.monotonic()
+    check("only-limit-errors", o[0] == "ret" or exc_in(o, ("TimeLimitError",)))
+    if o[0] == "ret":
+        check("the-function-ran-once", ghost_get("cb.calls", 0) == 1)
+        check("in-the-current-vm", ghost_get("cb.vm-is-current", False) is True)
+        if has_cur:
+            check("on-the-running-clock", ghost_get("cb.start", None) == start)
+            check("one-level-deeper", ghost_get("cb.depth", None) == depth + 1)
+        else:
+            check("on-a-clock-started-now", t0 <= ghost_get("cb.start", None) and ghost_get("cb.start", None) <= t1)
+    else:
+        check("stopped-only-after-the-deadline", has_cur and use_tl and t1 - start > tl)
+        check("the-function-did-not-run", ghost_get("cb.calls", 0) == 0)
+    check("current-vm-restored", same_ref(ctx._current_vm, cur) if has_cur else ctx._current_vm is None)
+
+
+register(c_call_function, id="C01.Context._call_function", prop="C01", target=method("microjs.context", "Context._call_function"), native=_recording_call_function,
+         summaries={"microjs.vm:VM._call_callback": spec_call_callback}, grid={"Flt": [0.0, 1.0, 1e6]}, prim_args=False)
+
+
 @groups.group(id="C01.lemma", prop="C01", kind="K1", functions=["microjs.vm:VM._check_limits"])
 def c01_lemma(tier="quick", seed=0):
     """bounded overrun: with polling period k (read from the code, 1 <= k <= 1e5), from any instruction
